@@ -159,6 +159,20 @@ func (api *API) decodeBasedOnType(ctx context.Context, b []byte, value reflect.V
 		}
 
 	case reflect.Struct:
+		// a uint256 number that is held as a big.Int value (see encodeBasedOnType)
+		if valueType == bigIntPtrType.Elem() {
+			decodedBigInt := reflect.New(bigIntPtrType).Elem()
+			bytesRead, err := api.decodeBasedOnType(ctx, b, decodedBigInt, bigIntPtrType, ts, opts)
+			if err != nil {
+				return 0, err
+			}
+			if !decodedBigInt.IsNil() {
+				value.Set(decodedBigInt.Elem())
+			}
+
+			return bytesRead, nil
+		}
+
 		if contextAwareDeserializable, ok := value.Interface().(ContextAwareDeserializable); ok {
 			contextAwareDeserializable.SetDeserializationContext(ctx)
 		}
